@@ -362,6 +362,17 @@ def rule_r6(ctx) -> RuleResult:
                        "the new item is nested in the open item as soon as *one* marker position matches (existential test); "
                        "`*#` followed by `***` nests instead of starting a new list", br.lineno))
         return rr
+    # no iteration at all: the markers are compared at a single index
+    has_iter = any(isinstance(x, (ast.For, ast.While, ast.ListComp, ast.GeneratorExp, ast.SetComp)) for x in ast.walk(br))
+    single = [x for x in ast.walk(br) if isinstance(x, ast.Subscript) and not isinstance(x.slice, ast.Slice)
+              and (unparse(x.value) == "token" or unparse(x.value).endswith(".sarg"))]
+    slices = [x for x in ast.walk(br) if isinstance(x, ast.Subscript) and isinstance(x.slice, ast.Slice)
+              and (unparse(x.value) == "token" or unparse(x.value).endswith(".sarg"))]
+    if not has_iter and single and not slices and {unparse(x.value) == "token" for x in single} == {True, False}:
+        rr.bad(Finding("C02.R6", P.PARSER, dotted, "markers compared at index `{}` only".format(unparse(single[0].slice)[:40]),
+                       "the new item is nested in the open item when the markers agree at one position; the other positions of the open "
+                       "marker are not compared, so `*#` followed by `##*` nests instead of starting a new list", single[0].lineno))
+        return rr
     raise AnalysisError("list_fn: the prefix comparison has an unrecognised shape (inconclusive)")
 
 
